@@ -181,6 +181,42 @@ pub fn scenario_c13(seed: u64, rep: &mut Report) {
     }
 }
 
+/// The exemption covers what the node is waiting for even when the operating system reports the
+/// peer's IPv6 source address with a scope id or flow label (link-local peers), and with a packet
+/// filter whose quota is far below one exchange: the awaited WHOAREYOU and the response pass.
+pub fn scenario_scoped_source(seed: u64, rep: &mut Report) {
+    use crate::rig::engine::Engine;
+    use crate::rig::r1::{runtime, v6, RigConfig, Stack};
+    use discv5::verif::HandlerOut;
+    let rt = runtime(seed);
+    rt.block_on(async {
+        let mut rng = Rng::new(seed ^ 0x5C09);
+        let hour = std::time::Duration::from_secs(3600);
+        let rl = discv5::RateLimiterBuilder::new().total_n_every(1000, hour).ip_n_every(1, hour).node_n_every(1, hour).build().expect("quota");
+        let cfg = RigConfig { stack: if rng.bool() { Stack::V6 } else { Stack::Dual }, packet_filter: true, rate_limiter: Some(rl), request_retries: 1, ..Default::default() };
+        let peer = v6(0x40 + rng.below(100) as u16, 9000);
+        let mut e = Engine::new(seed, cfg, 1, Some(vec![peer])).await;
+        let scope = match rng.below(3) {
+            0 => (0u32, 1 + rng.below(9) as u32),
+            1 => (1 + rng.below(1000) as u32, 0u32),
+            _ => (7, 3),
+        };
+        e.inject_scope = Some(scope);
+        let kind = *rng.pick(&[1u8, 3, 5]);
+        let id = e.submit(0, kind, true);
+        e.drain().await;
+        e.quiesce().await;
+        rep.evaluations += 1;
+        rep.count("scoped_source_exchanges");
+        let answered = e.trace.iter().any(|t| matches!(&t.ev, Ev::Out(HandlerOut::Response(_, r)) if r.id.0 == id));
+        let failed = e.trace.iter().any(|t| matches!(&t.ev, Ev::Out(HandlerOut::RequestFailed(rid, _)) if rid.0 == id));
+        rep.fingerprint(&("scoped-source", kind, scope.0 != 0, scope.1 != 0));
+        if !answered {
+            rep.violation("C13:awaited-datagram-filtered", format!("a request to an IPv6 peer whose source address carries flow info {} / scope id {} was answered by the peer, but the answer did not pass (request failed: {failed}): the exemption did not cover what the node was waiting for", scope.0, scope.1), json!({"scenario_seed": seed.to_string(), "kind": "scoped-source", "trace": e.dump_trace(30)}));
+        }
+    });
+}
+
 pub fn run_c13(p: &Params) -> Report {
     let mut rep = Report::new("C13");
     if let Some(r) = &p.replay {
@@ -189,13 +225,21 @@ pub fn run_c13(p: &Params) -> Report {
         }
     }
     if let Some(seed) = replay_seed(p) {
-        scenario_c13(seed, &mut rep);
+        if p.replay.as_ref().map(|r| r["replay"]["kind"] == "scoped-source").unwrap_or(false) {
+            scenario_scoped_source(seed, &mut rep);
+        } else {
+            scenario_c13(seed, &mut rep);
+        }
         return rep;
     }
     let n = p.budget(16_000, 600_000);
     for i in 0..n {
         let seed = p.shard_seed(0x13_0000 + i);
         crate::util::guarded(&mut rep, seed, |rep| scenario_c13(seed, rep));
+        if i % 16 == 0 {
+            let seed = p.shard_seed(0x5C09_0000 + i);
+            crate::util::guarded(&mut rep, seed, |rep| scenario_scoped_source(seed, rep));
+        }
     }
     // full stack: an unmodified Discv5 inside a simulated network, judged on the wire and the API
     super::sys::run_mixed(p, super::sys::Focus::C13, 0x5C13_0000, 1600, 100000, &mut rep);
